@@ -50,7 +50,7 @@ theorem rd_lt (b : Bytes) (off len : Nat) : rd b off len < 256 ^ len := by
 
 mutual
 def SecWf : Section → Prop
-  | .mk i buf encap => buf.length = i.extSize ∧ NodesWf encap
+  | .mk i buf encap => buf.length = i.extSize ∧ NodesWf encap ∧ (i.type = 2 → i.ts.isSome)
 def NodesWf : List Node → Prop
   | [] => True
   | .sec s :: ns => SecWf s ∧ NodesWf ns
@@ -64,7 +64,8 @@ def FilesWf : List File → Prop
   | [] => True
   | f :: fs => (FileWf f ∧ f.buf.length ≠ 0) ∧ FilesWf fs
 def FvWf : Fv → Prop
-  | .mk i buf files => buf.length = i.length ∧ (files ≠ [] → i.dataOffset < i.length) ∧ FilesWf files
+  | .mk i buf files => buf.length = i.length ∧ (files ≠ [] → i.dataOffset < i.length) ∧ FilesWf files ∧
+      64 ≤ i.length
 end
 
 theorem post_ucs2 (b : Bytes) (m : Meter) : Post (ucs2ToUtf8G b) m (fun _ m' => m' = m) := by
@@ -143,10 +144,10 @@ theorem section_step (h : HooksG) (inner : Inner) (fuel : Nat) (buf : Bytes) (or
                   · rename_i ns st' 
                     refine post_pure ⟨by simp [Section.info]; omega, ?_⟩
                     simp [SecWf, hlen]; simpa using hr
-                  · exact post_pure ⟨by simp [Section.info]; omega, by simp [SecWf, NodesWf, hlen]⟩
-                · exact post_pure ⟨by simp [Section.info]; omega, by simp [SecWf, NodesWf, hlen]⟩
-          · exact post_pure ⟨by simp [Section.info]; omega, by simp [SecWf, NodesWf, hlen]⟩
-        · exact post_pure ⟨by simp [Section.info]; omega, by simp [SecWf, NodesWf, hlen]⟩
+                  · exact post_pure ⟨by simp [Section.info]; omega, by simp [SecWf, NodesWf, hlen] <;> assumption⟩
+                · exact post_pure ⟨by simp [Section.info]; omega, by simp [SecWf, NodesWf, hlen] <;> assumption⟩
+          · exact post_pure ⟨by simp [Section.info]; omega, by simp [SecWf, NodesWf, hlen] <;> assumption⟩
+        · exact post_pure ⟨by simp [Section.info]; omega, by simp [SecWf, NodesWf, hlen] <;> assumption⟩
       · split
         · -- UI
           split
@@ -155,7 +156,7 @@ theorem section_step (h : HooksG) (inner : Inner) (fuel : Nat) (buf : Bytes) (or
             refine post_bind (post_sliceFromG (by omega) ?_)
             refine post_bind' (post_ucs2 _ _) ?_
             intro name m2 _
-            exact post_pure ⟨by simp [Section.info]; omega, by simp [SecWf, NodesWf, hlen]⟩
+            exact post_pure ⟨by simp [Section.info]; omega, by simp [SecWf, NodesWf, hlen] <;> assumption⟩
         · split
           · -- version
             split
@@ -165,7 +166,7 @@ theorem section_step (h : HooksG) (inner : Inner) (fuel : Nat) (buf : Bytes) (or
               refine post_bind (post_sliceFromG (by omega) ?_)
               refine post_bind' (post_ucs2 _ _) ?_
               intro ver m2 _
-              exact post_pure ⟨by simp [Section.info]; omega, by simp [SecWf, NodesWf, hlen]⟩
+              exact post_pure ⟨by simp [Section.info]; omega, by simp [SecWf, NodesWf, hlen] <;> assumption⟩
           · split
             · -- volume image
               split
@@ -175,13 +176,13 @@ theorem section_step (h : HooksG) (inner : Inner) (fuel : Nat) (buf : Bytes) (or
                 have hvl : ((buf.take ext).drop hs).length = ext - hs := by simp; omega
                 refine post_bind' (ihFv _ 0 true st _ (by rw [hvl]; omega) (by rw [hvl]; omega)) ?_
                 rintro ⟨fv, st'⟩ m2 ⟨_, hwf⟩
-                exact post_pure ⟨by simp [Section.info]; omega, by simp [SecWf, NodesWf, hlen]; exact hwf⟩
+                exact post_pure ⟨by simp [Section.info]; omega, by simp [SecWf, NodesWf, hlen]; exact ⟨hwf, by assumption⟩⟩
             · split
               · split
                 · exact post_err
                 · refine post_bind (post_sliceFromG (by omega) ?_)
-                  split <;> exact post_pure ⟨by simp [Section.info]; omega, by simp [SecWf, NodesWf, hlen]⟩
-              · exact post_pure ⟨by simp [Section.info]; omega, by simp [SecWf, NodesWf, hlen]⟩
+                  split <;> exact post_pure ⟨by simp [Section.info]; omega, by simp [SecWf, NodesWf, hlen] <;> assumption⟩
+              · exact post_pure ⟨by simp [Section.info]; omega, by simp [SecWf, NodesWf, hlen] <;> assumption⟩
 
 def NvarOk (h : HooksG) : Prop := ∀ b p m, Post (h.nvar b p) m (fun _ _ => True)
 
@@ -195,24 +196,28 @@ def FilesQ (data : Bytes) (offset : Nat) (r : List File × Nat × St) : Prop :=
 
 def FvQ (data : Bytes) (r : Fv × St) : Prop := r.1.info.length ≤ data.length ∧ FvWf r.1
 
+/-- … and the volume carries the `resizable` flag it was constructed with -/
+def FvQR (data : Bytes) (resizable : Bool) (r : Fv × St) : Prop := FvQ data r ∧ r.1.info.resizable = resizable
+
 theorem readBlocks_post (length : Nat) (fuel : Nat) (r : Bytes) (pos : Nat) (m : Meter)
-    (hf : r.length < 8 * fuel) : Post (readBlocksG length fuel r pos) m (fun _ _ => True) := by
+    (hf : r.length < 8 * fuel) : Post (readBlocksG length fuel r pos) m (fun _ _ => pos + 8 ≤ length) := by
   induction fuel generalizing r pos m with
   | zero => omega
   | succ fuel ih =>
     rw [readBlocksG]
     split
     · exact post_err
-    · simp only []
+    · rename_i hpos
+      simp only []
       refine post_bind (post_binaryReadG ?_)
       intro h8
       try simp only []
       split
-      · exact post_pure trivial
+      · exact post_pure (by omega)
       · refine post_bind (post_allocG ?_)
         refine post_bind' (ih _ _ _ (by simp; omega)) ?_
         intro _ _ _
-        exact post_pure trivial
+        exact post_pure (by omega)
 
 theorem sections_step (h : HooksG) (inner : Inner) (fuel : Nat)
     (ihSec : ∀ buf order st m, buf.length < 2^63 → 5 * buf.length < fuel →
@@ -333,7 +338,7 @@ theorem fv_step (h : HooksG) (inner : Inner) (fuel : Nat)
        Post (parseFilesG h inner fuel data offset lh length st) m (fun r _ => FilesQ data offset r))
     (data : Bytes) (fvOffset : Nat) (resizable : Bool) (st : St) (m : Meter)
     (hb : data.length < 2^63) (hf : 5 * data.length + 4 < fuel + 1) :
-    Post (parseFvG h inner (fuel+1) data fvOffset resizable st) m (fun r _ => FvQ data r) := by
+    Post (parseFvG h inner (fuel+1) data fvOffset resizable st) m (fun r _ => FvQR data resizable r) := by
   rw [parseFvG]
   split
   · exact post_err
@@ -342,7 +347,7 @@ theorem fv_step (h : HooksG) (inner : Inner) (fuel : Nat)
     intro _
     try simp only []
     refine post_bind' (readBlocks_post _ _ _ _ _ (by simp; omega)) ?_
-    intro blocks m1 _
+    intro blocks m1 hblk
     split
     · exact post_err
     · rename_i st1 _
@@ -373,7 +378,7 @@ theorem fv_step (h : HooksG) (inner : Inner) (fuel : Nat)
           have htl : (data.take (rd (List.take 56 data) 32 8)).length = rd (List.take 56 data) 32 8 := by
             simp; omega
           split
-          · exact post_pure (by simp [FvQ, Fv.info, FvWf, FilesWf, htl]; omega)
+          · exact post_pure (by simp [FvQR, FvQ, Fv.info, FvWf, FilesWf, htl]; omega)
           · refine post_bind (post_sliceToG (by omega) ?_)
             have hdo : align8G (if (decide (rd (List.take 56 data) 52 2 ≠ 0 ∧ rd (List.take 56 data) 32 8 ≥ 20 ∧
                   rd (List.take 56 data) 52 2 < rd (List.take 56 data) 32 8 - 20)) = true
@@ -384,9 +389,9 @@ theorem fv_step (h : HooksG) (inner : Inner) (fuel : Nat)
             refine post_bind' (ihFiles _ _ _ _ st1 _ (by rw [htl]; omega) hdo (by rw [htl]; omega)) ?_
             rintro ⟨fs, free, st'⟩ m3 ⟨hfs, hne⟩
             refine post_pure ?_
-            simp only [FvQ, Fv.info, FvWf, htl]
+            simp only [FvQR, FvQ, Fv.info, FvWf, htl]
             rw [htl] at hne
-            exact ⟨by omega, trivial, hne, hfs⟩
+            exact ⟨⟨by omega, trivial, hne, hfs, by omega⟩, trivial⟩
 
 /-- the mutual induction: all five parsers are safe and return well-formed nodes -/
 theorem mutual_post (h : HooksG) (inner : Inner) (hinner : InnerOk inner) (hcodec : CodecBounded h) (hnvar : NvarOk h) : ∀ fuel,
@@ -399,7 +404,7 @@ theorem mutual_post (h : HooksG) (inner : Inner) (hinner : InnerOk inner) (hcode
     (∀ data offset lh length st m, data.length < 2^63 → offset < 2^63 → 5 * (data.length - offset) + 3 < fuel →
        Post (parseFilesG h inner fuel data offset lh length st) m (fun r _ => FilesQ data offset r)) ∧
     (∀ data o r st m, data.length < 2^63 → 5 * data.length + 4 < fuel →
-       Post (parseFvG h inner fuel data o r st) m (fun r _ => FvQ data r)) := by
+       Post (parseFvG h inner fuel data o r st) m (fun x _ => FvQR data r x)) := by
   intro fuel
   induction fuel with
   | zero =>
@@ -409,7 +414,7 @@ theorem mutual_post (h : HooksG) (inner : Inner) (hinner : InnerOk inner) (hcode
     refine ⟨?_, ?_, ?_, ?_, ?_⟩
     · intro buf order st m hb hf
       exact section_step h inner fuel buf order st m hinner hcodec
-        (fun data o r st m h1 h2 => ihFv data o r st m h1 h2) hb (by omega)
+        (fun data o r st m h1 h2 => post_mono (ihFv data o r st m h1 h2) (fun _ _ hq => hq.1)) hb (by omega)
     · intro fbuf offset ext idx st m hb he hf
       exact sections_step h inner fuel ihSec ihSecs fbuf offset ext idx st m hb he hf
     · intro buf st m hb hf
@@ -476,7 +481,7 @@ theorem newFileG_post (h : HooksG) (hcodec : CodecBounded h) (hnvar : NvarOk h) 
 
 theorem newFvG_post (h : HooksG) (hcodec : CodecBounded h) (hnvar : NvarOk h) (z : Nat) (data : Bytes)
     (o : Nat) (r : Bool) (st : St) (m : Meter) (hb : data.length < 2^63) :
-    Post (newFvG h z data o r st) m (fun r _ => FvQ data r) :=
+    Post (newFvG h z data o r st) m (fun x _ => FvQR data r x) :=
   (mutual_post h _ (innerZ_ok h hcodec hnvar z) hcodec hnvar _).2.2.2.2 data o r st m hb (by unfold fuelFor; omega)
 
 /-! ### FindFirmwareVolumeOffset and NewBIOSRegion -/
@@ -523,6 +528,17 @@ def ElemsWf : List BiosElem → Prop
   | .pad _ _ :: es => ElemsWf es
   | .fv v :: es => FvWf v ∧ ElemsWf es
 
+/-- the volumes found by `NewBIOSRegion` are constructed with `resizable = false` -/
+def ElemsFlat : List BiosElem → Prop
+  | [] => True
+  | .pad _ _ :: es => ElemsFlat es
+  | .fv v :: es => v.info.resizable = false ∧ ElemsFlat es
+
+/-- total length of the element buffers -/
+def elemsLen : List BiosElem → Nat
+  | [] => 0
+  | e :: es => e.buf.length + elemsLen es
+
 theorem elemsWf_append (a b : List BiosElem) (ha : ElemsWf a) (hb : ElemsWf b) : ElemsWf (a ++ b) := by
   induction a with
   | nil => simpa using hb
@@ -531,10 +547,32 @@ theorem elemsWf_append (a b : List BiosElem) (ha : ElemsWf a) (hb : ElemsWf b) :
     | pad p o => simp only [List.cons_append, ElemsWf] at ha ⊢; exact ih ha
     | fv v => simp only [List.cons_append, ElemsWf] at ha ⊢; exact ⟨ha.1, ih ha.2⟩
 
+theorem elemsFlat_append (a b : List BiosElem) (ha : ElemsFlat a) (hb : ElemsFlat b) : ElemsFlat (a ++ b) := by
+  induction a with
+  | nil => simpa using hb
+  | cons x xs ih =>
+    cases x with
+    | pad p o => simp only [List.cons_append, ElemsFlat] at ha ⊢; exact ih ha
+    | fv v => simp only [List.cons_append, ElemsFlat] at ha ⊢; exact ⟨ha.1, ih ha.2⟩
+
+theorem elemsLen_append (a b : List BiosElem) : elemsLen (a ++ b) = elemsLen a + elemsLen b := by
+  induction a with
+  | nil => simp [elemsLen]
+  | cons x xs ih => simp only [List.cons_append, elemsLen, ih]; omega
+
+theorem fvWf_buf_length (v : Fv) (h : FvWf v) : v.buf.length = v.info.length := by
+  cases v with
+  | mk i b fs => simp only [FvWf] at h; simpa [Fv.buf, Fv.info] using h.1
+
+/-- what `NewBIOSRegion`'s element walk returns: well-formed, non-resizable volumes, and the element
+    buffers tile the region buffer exactly -/
+def ElemsQ (buf : Bytes) (es : List BiosElem) : Prop :=
+  ElemsWf es ∧ ElemsFlat es ∧ elemsLen es = buf.length
+
 theorem parseBiosElems_post (h : HooksG) (hcodec : CodecBounded h) (hnvar : NvarOk h) (z : Nat)
     (fuel : Nat) (buf : Bytes) (abs : Nat) (st : St) (m : Meter)
     (hb : buf.length < 2^63) (hf : buf.length < fuel) :
-    Post (parseBiosElemsG h z fuel buf abs st) m (fun r _ => ElemsWf r.1) := by
+    Post (parseBiosElemsG h z fuel buf abs st) m (fun r _ => ElemsQ buf r.1) := by
   induction fuel generalizing buf abs st m with
   | zero => omega
   | succ fuel ih =>
@@ -544,33 +582,39 @@ theorem parseBiosElems_post (h : HooksG) (hcodec : CodecBounded h) (hnvar : Nvar
     split
     · refine post_pure ?_
       try simp only []
-      split <;> simp [ElemsWf]
+      split <;> simp [ElemsQ, ElemsWf, ElemsFlat, elemsLen, BiosElem.buf] <;> omega
     · rename_i off
       have hoff := hr off rfl
       try simp only []
-      refine post_bind' (R := fun r _ => ElemsWf r) ?_ ?_
+      refine post_bind' (R := fun r _ => ElemsWf r ∧ ElemsFlat r ∧ elemsLen r = off) ?_ ?_
       · split
         · refine post_bind (post_sliceToG (by omega) ?_)
-          exact post_pure (by simp [ElemsWf])
-        · exact post_pure (by simp [ElemsWf])
+          exact post_pure (by simp [ElemsWf, ElemsFlat, elemsLen, BiosElem.buf]; omega)
+        · exact post_pure (by simp [ElemsWf, ElemsFlat, elemsLen]; omega)
       · intro pre m2 hpre
         refine post_bind (post_sliceFromG (by omega) ?_)
         have hl : (buf.drop off).length = buf.length - off := by simp
         refine post_bind' (newFvG_post h hcodec hnvar z _ _ false st _ (by rw [hl]; omega)) ?_
-        rintro ⟨fv, st'⟩ m3 ⟨hlen, hwf⟩
-        simp only [] at hlen hwf ⊢
+        rintro ⟨fv, st'⟩ m3 ⟨⟨hlen, hwf⟩, hrz⟩
+        simp only [] at hlen hwf hrz ⊢
         rw [hl] at hlen
         split
         · exact post_err
         · rename_i hnz
           refine post_bind (post_sliceFromG (by omega) ?_)
           refine post_bind' (ih _ _ st' _ (by simp; omega) (by simp; omega)) ?_
-          rintro ⟨es, st''⟩ m4 hes
+          rintro ⟨es, st''⟩ m4 ⟨hes, hfl, hel⟩
           refine post_pure ?_
           try simp only []
-          exact elemsWf_append _ _ hpre (by simp only [ElemsWf]; exact ⟨hwf, hes⟩)
+          refine ⟨elemsWf_append _ _ hpre.1 (by simp only [ElemsWf]; exact ⟨hwf, hes⟩),
+            elemsFlat_append _ _ hpre.2.1 (by simp only [ElemsFlat]; exact ⟨hrz, hfl⟩), ?_⟩
+          rw [elemsLen_append, hpre.2.2]
+          simp only [elemsLen, BiosElem.buf, fvWf_buf_length fv hwf] at hel ⊢
+          simp at hel
+          omega
 
-def BiosWf (b : BiosRegion) : Prop := ElemsWf b.elems
+def BiosWf (b : BiosRegion) : Prop :=
+  ElemsWf b.elems ∧ ElemsFlat b.elems ∧ elemsLen b.elems = b.length
 
 theorem parseBiosG_post (h : HooksG) (hcodec : CodecBounded h) (hnvar : NvarOk h) (z : Nat)
     (buf : Bytes) (fr : Option FlashRegion) (st : St) (m : Meter) (hb : buf.length < 2^63) :
